@@ -25,6 +25,8 @@ pub struct BigSpec {
     /// leave only the very last cluster free at/after the hint
     pub only_last_free: bool,
     pub count_known: bool,
+    /// where the root directory starts: 0 = cluster 2, 1 = the very last cluster, 2 = the last but one
+    pub root_at_end: u8,
 }
 
 #[derive(Clone, Debug)]
@@ -37,7 +39,7 @@ pub enum Hint {
 
 impl BigSpec {
     pub fn label(&self) -> String {
-        format!("fat32-bps{}-spc{}-sectors{:#x}-f{}-hint{:?}{}{}{}", self.bps, self.spc, self.total_sectors, self.nfats, self.hint, if self.tail_used { "-tailused" } else { "" }, if self.only_last_free { "-onlylastfree" } else { "" }, if self.count_known { "" } else { "-nocount" })
+        format!("fat32-bps{}-spc{}-sectors{:#x}-f{}-hint{:?}{}{}{}", self.bps, self.spc, self.total_sectors, self.nfats, self.hint, if self.tail_used { "-tailused" } else { "" }, if self.only_last_free { "-onlylastfree" } else { "" }, if self.count_known { "" } else { "-nocount" }) + match self.root_at_end { 0 => "", 1 => "-root@last", _ => "-root@last-1" }
     }
 }
 
@@ -88,6 +90,7 @@ pub fn big_image(s: &BigSpec) -> Result<(Image, u64, fatck::Geo), String> {
     bs[26..28].copy_from_slice(&255u16.to_le_bytes());
     bs[32..36].copy_from_slice(&(total as u32).to_le_bytes());
     bs[36..40].copy_from_slice(&(spf as u32).to_le_bytes());
+    // (patched below once the last cluster number is known)
     bs[44..48].copy_from_slice(&2u32.to_le_bytes());
     bs[48..50].copy_from_slice(&1u16.to_le_bytes());
     bs[50..52].copy_from_slice(&6u16.to_le_bytes());
@@ -109,7 +112,16 @@ pub fn big_image(s: &BigSpec) -> Result<(Image, u64, fatck::Geo), String> {
     };
     set(&mut img, 0, 0x0FFF_FFF8);
     set(&mut img, 1, 0x0FFF_FFFF);
-    set(&mut img, 2, 0x0FFF_FFFF);
+    let root = match s.root_at_end {
+        0 => 2,
+        1 => last,
+        _ => last - 1,
+    };
+    set(&mut img, root, 0x0FFF_FFFF);
+    if root != 2 {
+        img.set_u32(44, root);
+        img.set_u32(6 * bps + 44, root);
+    }
     let hint: Option<u32> = match s.hint {
         Hint::FromEnd(n) => Some(last - n),
         Hint::PastEnd(n) => Some(last + n),
@@ -171,7 +183,13 @@ pub fn specs(thorough: bool) -> Vec<BigSpec> {
             if !thorough && i % 2 == 1 && bps == 512 && spc == 128 {
                 continue;
             }
-            v.push(BigSpec { bps, spc, total_sectors: total, nfats: if i % 3 == 0 { 1 } else { 2 }, hint: h, tail_used: tail, only_last_free: only, count_known: !(i % 4 == 3 && total == (1 << 23) + 1) });
+            v.push(BigSpec { bps, spc, total_sectors: total, nfats: if i % 3 == 0 { 1 } else { 2 }, hint: h, tail_used: tail, only_last_free: only, count_known: !(i % 4 == 3 && total == (1 << 23) + 1), root_at_end: 0 });
+        }
+        // the root directory itself in the last clusters of the volume
+        for r in [1u8, 2] {
+            if thorough || (bps == 512 && spc != 128) {
+                v.push(BigSpec { bps, spc, total_sectors: total, nfats: 2, hint: if r == 1 { Hint::None } else { Hint::FromEnd(3) }, tail_used: false, only_last_free: false, count_known: r == 1, root_at_end: r });
+            }
         }
     }
     v
